@@ -59,6 +59,12 @@ pub enum IntegDecl {
     /// another value of the pool: the strongest algorithm decides (for the path and for every
     /// verification), the weaker hash is noise
     MultiWeakerOfOther,
+    /// the correct hash under the writer's algorithm plus, under a STRONGER algorithm, the hash
+    /// of another value of the pool: the commit is accepted (the writer's algorithm matches),
+    /// the entry then resolves through the stronger hash — to content that is not this data
+    MultiStrongerOfOther,
+    /// an integrity value without any hash: nothing can satisfy it
+    NoHashes,
 }
 
 /// Something another process does to the cache between a writer's last chunk and its commit.
@@ -324,6 +330,12 @@ pub enum Op {
     /// harness-side: `<cache>/tmp` becomes a symlink to a directory on another filesystem (a
     /// legal layout in which the temp file cannot be renamed into the content area)
     TmpElsewhere,
+    /// `remove_hash` with a two-hash integrity: the address of `addr` plus the hash of blob
+    /// `also` under a weaker algorithm; only what the address resolves to may go
+    RemoveHashMulti { addr: AddrRef, also: usize },
+    /// the cache path is a symbolic link: it is re-pointed to a fresh empty directory (the
+    /// `current -> releases/N` layout); answers come from where the path leads NOW
+    SwitchCache,
     /// the user deletes the file `target_<n>` that earlier `link_to` calls linked (harness-side);
     /// whatever the cache does later, that file does not come back
     RemoveTarget { target: usize },
@@ -340,7 +352,7 @@ pub enum Op {
 
 impl Op {
     pub fn is_harness_side(&self) -> bool {
-        matches!(self, Op::DamageContent { .. } | Op::DamageBucket { .. } | Op::ForeignRecord { .. } | Op::Chdir { .. } | Op::PlantRecord { .. } | Op::TmpElsewhere | Op::RemoveTarget { .. })
+        matches!(self, Op::DamageContent { .. } | Op::DamageBucket { .. } | Op::ForeignRecord { .. } | Op::Chdir { .. } | Op::PlantRecord { .. } | Op::TmpElsewhere | Op::RemoveTarget { .. } | Op::SwitchCache)
     }
     pub fn name(&self) -> &'static str {
         match self {
@@ -369,6 +381,8 @@ impl Op {
             Op::PlantRecord { .. } => "plant_record",
             Op::TmpElsewhere => "tmp_elsewhere",
             Op::RemoveTarget { .. } => "remove_target",
+            Op::RemoveHashMulti { .. } => "remove_hash",
+            Op::SwitchCache => "switch_cache",
             Op::TwoWriters { .. } => "two_writers",
         }
     }
